@@ -488,45 +488,81 @@ def rect_shortcuts(db, chk, cfg, rule="T.rect"):
                     if g != want:
                         chk.violation(rule, empty.qual, "IsEmpty", "Rect::IsEmpty() is %s for (l,t,r,b)=%s, zero-or-negative extent is %s"
                                       % (g, (l, t, r, b), want), empty.where, cfg=cfg)
-    # how RectClip64::Execute uses them
+    # how RectClip64::Execute uses them: the leading statements of the path loop are interpreted for the three possible answers of
+    # (Intersects, Contains) - whatever their spelling (else-if chain, early continues, hoisted locals)
+    from ..evalx import _Continue, _Break, _Return
     f = db.one("RectClip64::Execute")
     loops = [x for x in kids(f.body) if x.get("kind") == "CXXForRangeStmt"]
     if len(loops) != 1:
         raise AnalysisBroken("path loop of RectClip64::Execute not found")
     body = kids(loops[0])[-1]
-    lv = kids(kids(loops[0])[-2])[0].get("name")
-    sts = kids(body)
+    lv = [d for d in walk(kids(loops[0])[-2]) if d.get("kind") == "VarDecl"][0].get("name")
+    sts = [x for x in kids(body) if isinstance(x, dict) and x.get("kind")]
     problems = []
-    outside = inside = None
-    for s in sts:
-        if s.get("kind") == "IfStmt":
-            cond, then, els = if_parts(s)
-            cs = canon(cond)
-            if "Intersects(path_bounds_)" in cs and cs.startswith("(!"):
-                outside = (s, then, els)
-            elif "Contains(path_bounds_)" in cs:
-                inside = (s, then, els)
-            if outside and els is not None and els.get("kind") == "IfStmt" and inside is None:
-                c2, t2, e2 = if_parts(els)
-                if "Contains(path_bounds_)" in canon(c2):
-                    inside = (els, t2, e2)
-        if any(x.get("kind") == "CXXMemberCallExpr" and db.callee(x)[0] == "ExecuteInternal" for x in walk(s)):
-            break
-    if outside is None:
-        problems.append("no `if (!rect_.Intersects(path_bounds_)) continue;` shortcut before ExecuteInternal")
-    else:
-        t = canon(outside[1])
-        if "emplace_back" in t or "push_back" in t or "continue" not in t:
-            problems.append("the 'entirely outside' branch is not a bare `continue`: %s" % t[:60])
-    if inside is None:
-        problems.append("no `if (rect_.Contains(path_bounds_))` shortcut before ExecuteInternal")
-    else:
-        t = canon(inside[1])
-        if not ("result.emplace_back(%s)" % lv in t or "result.push_back(%s)" % lv in t) or "continue" not in t:
-            problems.append("the 'entirely inside' branch does not return the input path unchanged: %s" % t[:80])
-    bounds_ok = any("(path_bounds_ = GetBounds(%s))" % lv in canon(s) for s in sts)
-    if not bounds_ok:
-        problems.append("path_bounds_ is not GetBounds(<the current path>)")
+    for inter, cont in ((False, False), (True, False), (True, True)):
+        appended = []
+        bounds_args = []
+        state = {"exec": False}
+        it_box = [None]
+
+        def hook(name, argv, nd, inter=inter, cont=cont):
+            if name == "GetBounds":
+                return "bounds(%s)" % canon(db.call_args(nd)[0])
+            if name in ("Intersects", "Contains") and nd.get("kind") == "CXXMemberCallExpr":
+                try:
+                    bounds_args.append(it_box[0].ev(db.call_args(nd)[0]))
+                except Unsupported:
+                    bounds_args.append(canon(db.call_args(nd)[0]))
+                return inter if name == "Intersects" else cont
+            if name in ("emplace_back", "push_back") and nd.get("kind") == "CXXMemberCallExpr" and canon(db.member_base(nd)) == "result":
+                appended.append(_argtext(db.call_args(nd)[0]))
+                return None
+            if name == "ExecuteInternal":
+                state["exec"] = True
+                raise _Break()
+            if name == "operator=" and nd.get("kind") == "CXXOperatorCallExpr":
+                a = db.call_args(nd)
+                try:
+                    v = it_box[0].ev(a[1])
+                except Unsupported:
+                    v = None
+                it_box[0].env[canon(a[0])] = v
+                return v
+            if name == "size":
+                return 10                   # a path long enough to be clipped
+            if name in ("clear", "IsEmpty", "empty"):
+                return 0
+            return NotImplemented
+        it = Interp(db, {lv: lv}, [], call_hook=hook)
+        it_box[0] = it
+        outcome = "fell through"
+        try:
+            for st in sts:
+                it.exec(st)
+                if state["exec"]:
+                    break
+        except _Continue:
+            outcome = "continue"
+        except _Break:
+            outcome = "clip"
+        except _Return:
+            outcome = "return"
+        except Unsupported as e:
+            if state["exec"]:
+                outcome = "clip"
+            else:
+                raise AnalysisBroken("cannot interpret the leading statements of RectClip64::Execute's path loop: %s" % e)
+        if state["exec"]:
+            outcome = "clip"
+        for nm, av, ln in it.effects:
+            if nm in ("emplace_back", "push_back"):
+                appended.append(av[0] if av else "?")
+        want = ("continue", []) if not inter else (("continue", [lv]) if cont else ("clip", []))
+        if (outcome, appended) != want:
+            problems.append("when the path's bounds %s the rectangle's and %s inside it the loop does `%s` having appended %s (expected `%s` / %s)" % (
+                "meet" if inter else "do not meet", "lie" if cont else "do not lie", outcome, appended, want[0], want[1]))
+        if any(b != "bounds(%s)" % lv for b in bounds_args):
+            problems.append("the bounding-box predicates are not applied to GetBounds(<the current path>): %s" % bounds_args)
     n += 1
     chk.instance(rule, {"function": f.qual, "shortcuts": "outside -> continue; inside -> result.emplace_back(path); continue", "cfg": cfg}, ok=not problems)
     if problems:
